@@ -31,10 +31,11 @@ def sig_case(sig: list[tuple], arrays: list, ret=None, retval=None, provider=Non
 
     def hv(spec, val):
         if isinstance(spec, tuple):
-            return H_tuple([ann(s) for s in spec]), V_tup([V_arr(lib, dt, v) for v in val])
+            hs, vs = zip(*[hv(s, v) for s, v in zip(spec, val)])
+            return H_tuple(list(hs)), V_tup(list(vs))
         if spec is not None and spec.endswith("?"):
             return H_opt(ann(spec[:-1])), (dict(V_NONE) if val is None else V_arr(lib, dt, val))
-        return ann(spec), V_arr(lib, dt, val)
+        return ann(spec), (dict(V_NONE) if val is None else V_arr(lib, dt, val))
 
     for (name, spec), val in zip(sig, arrays):
         h, v = hv(spec, val)
